@@ -8,10 +8,10 @@ def extraction_crosscheck(ctx, corpus_texts, cases):
     fast, m1 = vlib.build_model(ctx, "fast"); ref, m2 = vlib.build_model(ctx, "ref")
     if fast is None or ref is None:
         ctx.ob("extraction:fast-vs-reference", "extraction", False, (m1 or "") + (m2 or "")); return
-    small = sorted(cases, key=lambda c: len(c.text()))[: (3 if ctx.quick() else 25)]
+    small = sorted(cases, key=lambda c: len(c.text()))[: (3 if ctx.quick() else 8)]
     txt = "".join(corpus_texts) + "".join(c.text() for c in small)
     cf = os.path.join(ctx.work, "xcheck.cases"); open(cf, "w").write(txt)
-    rc1, o1 = vlib.run_bin(fast, cf, timeout=900); rc2, o2 = vlib.run_bin(ref, cf, timeout=900)
+    rc1, o1 = vlib.run_bin(fast, cf, timeout=900); rc2, o2 = vlib.run_bin_chunked(ref, txt, ctx.work, "xref", timeout=3000, nchunks=8)
     ok = rc1 == 0 and rc2 == 0 and o1 == o2
     ctx.ob("extraction:fast-vs-reference", "extraction", ok, "" if ok else "rc %d %d; outputs %s" % (rc1, rc2, "differ" if o1 != o2 else "equal"))
 
